@@ -43,7 +43,7 @@ theorem bits_sound_run (s0 : St) (h0 : InitLike s0) (evs : List Ev) (hop : ∀ e
 fine on disk bad: the client never overwrites verified data with anything but verified data. -/
 theorem disk_never_regresses (s : St) (p : Parked) (kn : Nat → Bool) (op : Op) (hop : op.isMutate = false)
     (h : Sound0 s) (i : Nat) (hi : s.diskOKi i = true) : (step s p kn op).1.st.diskOKi i = true :=
-  diskOKi_mono (step_adv s p kn op hop h).bad i hi
+  diskOKi_mono (step_adv s p kn op hop h).cfg (step_adv s p kn op hop h).bad i hi
 
 /-- **bits_sound_with_mutations.** Files may be deleted or restored (not corrupted) behind the stopped
 client's back at any point of the history: whenever the torrent is then downloading or seeding, every
@@ -137,7 +137,7 @@ theorem reported_only_verified_run (s0 : St) (h0 : InitLike s0) (evs : List Ev) 
   have h := step_havesOK _ _ e.known e.op (drun_sound0 evs (s0, none) h0.sound.zero) o ho i hi
   refine ⟨h, ?_⟩
   unfold dstep
-  exact diskOKi_mono ((reconcile_adv _ _).trans (reconcileIdl_adv _ _)).bad i h
+  exact diskOKi_mono ((reconcile_adv _ _).trans (reconcileIdl_adv _ _)).cfg ((reconcile_adv _ _).trans (reconcileIdl_adv _ _)).bad i h
 
 /-! Non-vacuity: a one-piece torrent, an honest peer, the piece is written and the bit is set. -/
 section Example
